@@ -35,7 +35,7 @@ def VA.FitsR (c : Cfg) : VA → Prop
   | .rle rows runs vals => isInt32 rows ∧ (runsObj runs).Fits c ∧ vals.Fits c ∧ vals.tid < 256
   | .bit vt rows bits =>
     isInt32 rows ∧ vt < 256 ∧ 0 ≤ packedSize rows ∧ bits.length = (packedSize rows).toNat ∧
-    packedSize rows + 4 ≤ c.cap ∧ packedSize rows ≤ INT_MAX
+    packedSize rows + 4 ≤ c.cap ∧ packedSize rows ≤ INT_MAX ∧ 0 ≤ rows
 
 /-- the byte-size header of the array's string/binary part is representable -/
 def VA.BSOk : VA → Prop
@@ -95,10 +95,11 @@ theorem Post.readVA (c : Cfg) : Post (Sbdf.readVA c) (VA.FitsR c) := by
     rw [this]
     exact hruns.2
   · refine Post.bind (Post.readInt32 c) (fun v hv => ?_)
+    refine Post.ite (fun _ => Post.fail) (fun hv0 => ?_)
     refine Post.bind (Post.alloc c _) (fun _ ha => ?_)
     refine Post.bind (Post.readN _) (fun bits hb => ?_)
     refine Post.bind (Post.allocBa c _) (fun _ hba => Post.pure ?_)
-    exact ⟨hv, hvt, ha.1, hb, hba, packedSize_le v (by unfold isInt32 at hv; unfold INT_MAX; omega)⟩
+    exact ⟨hv, hvt, ha.1, hb, hba, packedSize_le v (by unfold isInt32 at hv; unfold INT_MAX; omega), by omega⟩
 
 /-- `CS.Fits` without the byte-size clauses, and with the two ways `sbdf_cs_read` fills the
     property fields: a positive count with that many properties, or any other count with none -/
